@@ -191,10 +191,13 @@ structure Obs where
   logs : List Log
   /-- miner stakes: storage of the miner database account -/
   stake : Addr → Nat
+  /-- `HasSuicided`: a flagged account disappears at `Finalise`, so the flag is part of "the set of existing
+      accounts" one block later -/
+  sui : Addr → Bool
 
 def obs (w : World) : Obs :=
   { exist := w.exists?, nonce := w.getNonce, bal := w.getBalance, code := w.getCode,
-    stor := w.getState, logs := w.logs, stake := w.getStake }
+    stor := w.getState, logs := w.logs, stake := w.getStake, sui := w.hasSuicided }
 
 /-- Per-transaction scratch state and log stamping context. -/
 structure Scratch where
